@@ -127,39 +127,53 @@ def run(ctx):
                                   % (f.qualname, norm(st)[:50]), node=st,
                                   witness="two filters with the same name; getfilter/removefilter then address only the first")
     ctx.need("O1", "insertions / renames", n1, 3)
-
-    # ---- O2 -----------------------------------------------------------------------
-    ctx.rule("O2", "update/replace: no list-level mutation, no write of `enabled`; re-wrap when disabled")
+    # the name tested for uniqueness is the (normalised) name that is stored
+    for op in ("addfilter", "updatefilter", "replacefilter"):
+        f = m[op]
+        cfg = ctx.cfg(f)
+        stored = []
+        for st in walk_no_nested(f.node):
+            if isinstance(st, ast.Assign) and any(isinstance(t, ast.Subscript) and const_value(ctx.program, f, t.slice) == "name" for t in st.targets):
+                stored.append((st, st.value))
+            if isinstance(st, ast.AugAssign) and "filters" in norm(st.target):
+                for d in ast.walk(st.value):
+                    if isinstance(d, ast.Dict):
+                        for k, v in zip(d.keys, d.values):
+                            if k is not None and const_value(ctx.program, f, k) == "name":
+                                stored.append((st, v))
+        tests = [c for c in walk_no_nested(f.node) if isinstance(c, ast.Call) and call_name(c) == "filter_exists" and c.args]
+        for st, v in stored:
+            if not isinstance(v, ast.Name):
+                ctx.violation("O1", f, "stored-name-computed", "%s stores the name %s, which is not the variable tested for uniqueness" % (f.qualname, norm(v)),
+                              node=st, witness="a name given as bytes is tested undecoded but stored decoded: the collision with an existing filter goes unnoticed")
+                continue
+            same = [c for c in tests if isinstance(c.args[0], ast.Name) and c.args[0].id == v.id]
+            # no re-binding of that variable between the test and the store
+            rebinds = [a for a in walk_no_nested(f.node) if isinstance(a, ast.Assign) and any(isinstance(t, ast.Name) and t.id == v.id for t in a.targets)]
+            late = [a for a in rebinds for c in same if a.lineno > c.lineno and a.lineno <= st.lineno]
+            norm_calls = [a for a in rebinds if isinstance(a.value, ast.Call) and "unicode" in (call_name(a.value) or "")]
+            if same and not late and (norm_calls or v.id not in f.params):
+                ctx.holds("O1", "%s: `%s` is normalised, tested for uniqueness and stored" % (f.qualname, v.id))
+            else:
+                ctx.violation("O1", f, "tested-name-differs", "%s tests %s for uniqueness but stores `%s`%s" % (
+                    f.qualname, [norm(c.args[0]) for c in tests], v.id, " (re-bound in between)" if late else ""), node=st,
+                    witness="a name given as bytes is tested undecoded but stored decoded: two filters end up with the same name")
+    # FilterAlreadyExists only for an operation on an existing filter
     for op in ("updatefilter", "replacefilter"):
         f = m[op]
         cfg = ctx.cfg(f)
-        muts, ev = filters_mutations(f)
-        bad = [(k, st) for k, st, _ in muts if k.startswith("list:") or k == "del" or k == "entry:enabled"]
-        if bad:
-            for k, st in bad:
-                ctx.violation("O2", f, "not-in-place:%s" % k, "%s modifies the list or the enabled flag: %s" % (f.qualname, norm(st)[:60]), node=st,
-                              witness="an updated filter changes position or silently becomes enabled")
-        else:
-            ctx.holds("O2", "%s edits the entry in place (%s)" % (f.qualname, sorted(k for k, _, _ in muts)))
-        # content replaced -> must be re-wrapped if the entry is disabled
-        cw = [st for k, st, _ in muts if k == "entry:content"]
-        rew = [c for c in walk_no_nested(f.node) if isinstance(c, ast.Call) and call_name(c) == "disablefilter"]
+        _, ev = filters_mutations(f)
+        pred = match_fact(f, ev)
+        for r in walk_no_nested(f.node):
+            if isinstance(r, ast.Raise) and raise_name(r) == "FilterAlreadyExists":
+                if all(cfg.guarded(x, pred) for x in cfg.nodes_for(r)):
+                    ctx.holds("O4", "%s: FilterAlreadyExists only after the filter to edit was found" % f.qualname)
+                else:
+                    ctx.violation("O4", f, "raise-before-lookup", "%s can raise FilterAlreadyExists although the filter to edit does not exist "
+                                  "(unknown names must yield False)" % f.qualname, node=r,
+                                  witness="replacefilter('nosuch', content, newname='existing') raises instead of returning False")
 
-        def was_disabled(fc):
-            e, pol = fact_atom(fc)
-            return norm(e).endswith("['enabled']") and pol is False
-        ok = bool(cw) and bool(rew) and all(all(cfg.guarded(x, was_disabled) for x in cfg.node_containing(c)) for c in rew)
-        # every normal exit after the content write passes the enabled test
-        tests = [p for fc in cfg.facts(was_disabled) for p, _ in fc.pred]
-        for st in cw:
-            for x in cfg.nodes_for(st):
-                if cfg.exit in cfg.reach(x, avoid=tests, exc=False):
-                    ok = False
-        if ok:
-            ctx.holds("O2", "%s re-wraps the new content when the entry is disabled" % f.qualname)
-        else:
-            ctx.violation("O2", f, "no-rewrap", "%s replaces the content of a disabled filter without wrapping it again" % f.qualname,
-                          node=cw[0] if cw else f.node, witness="a disabled filter becomes active in the rendered script while `enabled` stays False")
+    o2(ctx, R)
 
     # ---- O3 -----------------------------------------------------------------------
     ctx.rule("O3", "movefilter: remove + insert of the same object at index-1 (up) / index+1 (down); early exits at 0 and len-1")
@@ -276,6 +290,57 @@ def run(ctx):
             ctx.violation("O4", f, "unknown-name-result", "%s does not end with a falsy return for an unknown name" % f.qualname, node=last)
     ctx.need("O4", "mutations in the editing operations", n4, 10)
 
+    o5(ctx, R)
+
+
+def o2(ctx, R):
+    m = R.m
+    # ---- O2 -----------------------------------------------------------------------
+    ctx.rule("O2", "update/replace: no list-level mutation, no write of `enabled`; re-wrap when disabled")
+    for op in ("updatefilter", "replacefilter"):
+        f = m[op]
+        cfg = ctx.cfg(f)
+        muts, ev = filters_mutations(f)
+        bad = [(k, st) for k, st, _ in muts if k.startswith("list:") or k == "del" or k == "entry:enabled"]
+        if bad:
+            for k, st in bad:
+                ctx.violation("O2", f, "not-in-place:%s" % k, "%s modifies the list or the enabled flag: %s" % (f.qualname, norm(st)[:60]), node=st,
+                              witness="an updated filter changes position or silently becomes enabled")
+        else:
+            ctx.holds("O2", "%s edits the entry in place (%s)" % (f.qualname, sorted(k for k, _, _ in muts)))
+        # content replaced -> must be re-wrapped if the entry is disabled
+        cw = [st for k, st, _ in muts if k == "entry:content"]
+        rew = [c for c in walk_no_nested(f.node) if isinstance(c, ast.Call) and call_name(c) == "disablefilter"]
+
+        def was_disabled(fc):
+            e, pol = fact_atom(fc)
+            return norm(e).endswith("['enabled']") and pol is False
+        ok = bool(cw) and bool(rew) and all(all(cfg.guarded(x, was_disabled) for x in cfg.node_containing(c)) for c in rew)
+        # ... under the name the entry carries now
+        named = [st.value for k, st, _ in muts if k == "entry:name"]
+        for c in rew:
+            a0 = c.args[0] if c.args else None
+            if named and not (isinstance(a0, ast.Name) and isinstance(named[-1], ast.Name) and a0.id == named[-1].id):
+                ok = False
+                ctx.violation("O2", f, "rewrap-wrong-name", "%s re-disables the filter as %s, but the entry is now called %s" % (
+                    f.qualname, norm(a0) if a0 is not None else "?", norm(named[-1])), node=c,
+                    witness="a disabled filter that is renamed while being replaced loses its `if false` wrapper but keeps enabled=False")
+        # every normal exit after the content write passes the enabled test
+        tests = [p for fc in cfg.facts(was_disabled) for p, _ in fc.pred]
+        for st in cw:
+            for x in cfg.nodes_for(st):
+                if cfg.exit in cfg.reach(x, avoid=tests, exc=False):
+                    ok = False
+        if ok:
+            ctx.holds("O2", "%s re-wraps the new content when the entry is disabled" % f.qualname)
+        else:
+            ctx.violation("O2", f, "no-rewrap", "%s replaces the content of a disabled filter without wrapping it again" % f.qualname,
+                          node=cw[0] if cw else f.node, witness="a disabled filter becomes active in the rendered script while `enabled` stays False")
+
+
+
+def o5(ctx, R):
+    m = R.m
     # ---- O5 -----------------------------------------------------------------------
     ctx.rule("O5", "enabled=False only with wrapping, True only with unwrapping, both under the recogniser's state guard; getters agree")
     rec = R.isdisabled.name
